@@ -164,6 +164,10 @@ class SkBaseTransformStacking(SkBaseTransform):
         if "method" in values:
             self.method = values["method"]
             del values["method"]
+            # the constructor gives every wrapped learner this method
+            for m in self.models:
+                if isinstance(m, SkBaseTransformLearner):
+                    m.set_params(method=self.method)
         # parameters received as **kwargs by the constructor
         own = {k: v for k, v in values.items() if k in self.P.Keys}
         if own:
